@@ -14,6 +14,8 @@ ROOT = os.path.dirname(os.path.dirname(os.path.abspath(__file__)))
 def run(sid):
     d = os.path.join(ROOT, "seeded", sid)
     prop = sid.split("-")[0]
+    if os.path.exists(os.path.join(d, "meta.json")) and json.load(open(os.path.join(d, "meta.json"))).get("status", "").startswith("neutralised"):
+        return sid, True, 0, {"skipped": "neutralised, see meta.json"}
     agent = json.load(open(os.path.join(d, "meta.agent.json")))
     p = subprocess.run([os.path.join(ROOT, "tools", "seedcheck.sh"), d, prop], capture_output=True, text=True)
     out = "\n".join(l for l in p.stdout.splitlines() if not l.startswith("WARNING"))
@@ -56,7 +58,7 @@ if __name__ == "__main__":
     if "-j" in sys.argv:
         j = int(sys.argv[sys.argv.index("-j") + 1])
         args = [a for a in args if a != str(j)]
-    ids = args or [x for x in sorted(os.listdir(os.path.join(ROOT, "seeded"))) if x != "C01-B"]     # C01-B: see its meta.json (neutralised by a later fix)
+    ids = args or sorted(os.listdir(os.path.join(ROOT, "seeded")))
     with ThreadPoolExecutor(j) as ex:
         for sid, caught, rep, val in ex.map(run, ids):
             print(f"{sid}: caught={caught} replayed-input={rep} valid={all(bool(v) for v in val.values())}", flush=True)
